@@ -381,3 +381,118 @@ Proof.
   exists fl. assert (H : Loader.LdOk fl pats = Loader.load pex_ext pex_q (Parser.fuel_of pex_text) pex_text) by (symmetry; exact E).
   vm_compute in H. injection H as -> ->. repeat split.
 Qed.
+
+
+(* ================================================================================================================
+   THE STANDARD LIBRARY (see the end of Props/C20.v): the theorems above that carry `call_errors_base call`, with
+   `call := stdlib_call rxo t` — no hypothesis on functions is left. *)
+From TSG Require Import Model.Stdlib Proofs.StdlibHyps.
+
+Theorem strict_error_rendering_cites_disp_stdlib : forall {rx : Type} rxo t fl cfg glob (regexes : list rx) find fuel sts ms s p e
+    E cause_text node_kind node_pos other_msg w tsg_path tsg src_path src,
+  locs_unique fl = true -> incl sts (f_stanzas fl) ->
+  exec_file t fl cfg glob regexes find (stdlib_call rxo t) fuel sts ms s p = Err e ->
+  (exists l, e = ECancelled l) \/
+  exists st m, In (st, m) (blocks sts ms) /\
+    match nodes_for_capture m (st_full_stanza_idx st) with
+    | n :: _ =>
+        exists s', stmt_in st s' /\ stmt_at fl (stmt_loc s') = Some s' /\
+          let out := render_pretty w tsg_path tsg src_path src (chain_of_error_disp E fl cause_text node_kind node_pos other_msg e) in
+          cites3 tsg_path src_path out (stmt_loc s') (st_start st) (node_pos n) /\
+          contains (display_stmt E s') out = true
+    | [] => False
+    end.
+Proof.
+  intros rx rxo t fl cfg glob regexes find fuel sts ms s p e E cause_text node_kind node_pos other_msg w tsg_path tsg src_path src.
+  exact (@strict_error_rendering_cites_disp rx t fl cfg glob regexes find (stdlib_call rxo t) fuel sts ms s p e E cause_text node_kind node_pos other_msg w tsg_path tsg src_path src (stdlib_call_errors_base rxo t)).
+Qed.
+
+Theorem lazy_error_rendering_cites_disp_stdlib : forall {rx : Type} rxo t fl cfg supplied budget (regexes : list rx) find fuel ms g0 e
+    E cause_text node_kind node_pos other_msg w tsg_path tsg src_path src,
+  locs_unique fl = true ->
+  run_lazy t fl cfg supplied budget regexes find (stdlib_call rxo t) fuel ms g0 = Err e ->
+  check_globals (f_globals fl) (globals_nested supplied) = Err e \/
+  (exists l, e = ECancelled l) \/
+  exists cs e0, e = EInContext (CtxStmts cs) e0 /\ (length cs = 1 \/ length cs = 2)%nat /\
+    Forall (fun c => valid_ctx fl ms c /\
+              let out := render_pretty w tsg_path tsg src_path src (chain_of_error_disp E fl cause_text node_kind node_pos other_msg e) in
+              cites3 tsg_path src_path out (sc_stmt c) (sc_stanza c) (node_pos (sc_node c)) /\
+              exists s', stmt_at fl (sc_stmt c) = Some s' /\ (exists st, In st (f_stanzas fl) /\ stmt_in st s') /\
+                         contains (display_stmt E s') out = true) cs.
+Proof.
+  intros rx rxo t fl cfg supplied budget regexes find fuel ms g0 e E cause_text node_kind node_pos other_msg w tsg_path tsg src_path src.
+  exact (@lazy_error_rendering_cites_disp rx t fl cfg supplied budget regexes find (stdlib_call rxo t) fuel ms g0 e E cause_text node_kind node_pos other_msg w tsg_path tsg src_path src (stdlib_call_errors_base rxo t)).
+Qed.
+
+Theorem strict_error_rendering_cites_disp_parsed_stdlib : forall {rx : Type} X pfuel text pats rxo t fl cfg glob (regexes : list rx) find fuel sts ms s p e
+    E cause_text node_kind node_pos other_msg w tsg_path tsg src_path src,
+  Parser.parse X pfuel text = Parser.POk fl pats -> incl sts (f_stanzas fl) ->
+  exec_file t fl cfg glob regexes find (stdlib_call rxo t) fuel sts ms s p = Err e ->
+  (exists l, e = ECancelled l) \/
+  exists st m, In (st, m) (blocks sts ms) /\
+    match nodes_for_capture m (st_full_stanza_idx st) with
+    | n :: _ =>
+        exists s', stmt_in st s' /\ stmt_at fl (stmt_loc s') = Some s' /\
+          let out := render_pretty w tsg_path tsg src_path src (chain_of_error_disp E fl cause_text node_kind node_pos other_msg e) in
+          cites3 tsg_path src_path out (stmt_loc s') (st_start st) (node_pos n) /\
+          contains (display_stmt E s') out = true
+    | [] => False
+    end.
+Proof.
+  intros rx X pfuel text pats rxo t fl cfg glob regexes find fuel sts ms s p e E cause_text node_kind node_pos other_msg w tsg_path tsg src_path src.
+  exact (@strict_error_rendering_cites_disp_parsed rx X pfuel text pats t fl cfg glob regexes find (stdlib_call rxo t) fuel sts ms s p e E cause_text node_kind node_pos other_msg w tsg_path tsg src_path src (stdlib_call_errors_base rxo t)).
+Qed.
+
+Theorem lazy_error_rendering_cites_disp_parsed_stdlib : forall {rx : Type} X pfuel text pats rxo t fl cfg supplied budget (regexes : list rx) find fuel ms g0 e
+    E cause_text node_kind node_pos other_msg w tsg_path tsg src_path src,
+  Parser.parse X pfuel text = Parser.POk fl pats ->
+  run_lazy t fl cfg supplied budget regexes find (stdlib_call rxo t) fuel ms g0 = Err e ->
+  check_globals (f_globals fl) (globals_nested supplied) = Err e \/
+  (exists l, e = ECancelled l) \/
+  exists cs e0, e = EInContext (CtxStmts cs) e0 /\ (length cs = 1 \/ length cs = 2)%nat /\
+    Forall (fun c => valid_ctx fl ms c /\
+              let out := render_pretty w tsg_path tsg src_path src (chain_of_error_disp E fl cause_text node_kind node_pos other_msg e) in
+              cites3 tsg_path src_path out (sc_stmt c) (sc_stanza c) (node_pos (sc_node c)) /\
+              exists s', stmt_at fl (sc_stmt c) = Some s' /\ (exists st, In st (f_stanzas fl) /\ stmt_in st s') /\
+                         contains (display_stmt E s') out = true) cs.
+Proof.
+  intros rx X pfuel text pats rxo t fl cfg supplied budget regexes find fuel ms g0 e E cause_text node_kind node_pos other_msg w tsg_path tsg src_path src.
+  exact (@lazy_error_rendering_cites_disp_parsed rx X pfuel text pats t fl cfg supplied budget regexes find (stdlib_call rxo t) fuel ms g0 e E cause_text node_kind node_pos other_msg w tsg_path tsg src_path src (stdlib_call_errors_base rxo t)).
+Qed.
+
+Theorem strict_error_rendering_cites_disp_loaded_stdlib : forall {rx : Type} X q pfuel text pats rxo t fl cfg glob (regexes : list rx) find fuel sts ms s p e
+    E cause_text node_kind node_pos other_msg w tsg_path tsg src_path src,
+  Loader.load X q pfuel text = Loader.LdOk fl pats -> incl sts (f_stanzas fl) ->
+  exec_file t fl cfg glob regexes find (stdlib_call rxo t) fuel sts ms s p = Err e ->
+  (exists l, e = ECancelled l) \/
+  exists st m, In (st, m) (blocks sts ms) /\
+    match nodes_for_capture m (st_full_stanza_idx st) with
+    | n :: _ =>
+        exists s', stmt_in st s' /\ stmt_at fl (stmt_loc s') = Some s' /\
+          let out := render_pretty w tsg_path tsg src_path src (chain_of_error_disp E fl cause_text node_kind node_pos other_msg e) in
+          cites3 tsg_path src_path out (stmt_loc s') (st_start st) (node_pos n) /\
+          contains (display_stmt E s') out = true
+    | [] => False
+    end.
+Proof.
+  intros rx X q pfuel text pats rxo t fl cfg glob regexes find fuel sts ms s p e E cause_text node_kind node_pos other_msg w tsg_path tsg src_path src.
+  exact (@strict_error_rendering_cites_disp_loaded rx X q pfuel text pats t fl cfg glob regexes find (stdlib_call rxo t) fuel sts ms s p e E cause_text node_kind node_pos other_msg w tsg_path tsg src_path src (stdlib_call_errors_base rxo t)).
+Qed.
+
+Theorem lazy_error_rendering_cites_disp_loaded_stdlib : forall {rx : Type} X q pfuel text pats rxo t fl cfg supplied budget (regexes : list rx) find fuel ms g0 e
+    E cause_text node_kind node_pos other_msg w tsg_path tsg src_path src,
+  Loader.load X q pfuel text = Loader.LdOk fl pats ->
+  run_lazy t fl cfg supplied budget regexes find (stdlib_call rxo t) fuel ms g0 = Err e ->
+  check_globals (f_globals fl) (globals_nested supplied) = Err e \/
+  (exists l, e = ECancelled l) \/
+  exists cs e0, e = EInContext (CtxStmts cs) e0 /\ (length cs = 1 \/ length cs = 2)%nat /\
+    Forall (fun c => valid_ctx fl ms c /\
+              let out := render_pretty w tsg_path tsg src_path src (chain_of_error_disp E fl cause_text node_kind node_pos other_msg e) in
+              cites3 tsg_path src_path out (sc_stmt c) (sc_stanza c) (node_pos (sc_node c)) /\
+              exists s', stmt_at fl (sc_stmt c) = Some s' /\ (exists st, In st (f_stanzas fl) /\ stmt_in st s') /\
+                         contains (display_stmt E s') out = true) cs.
+Proof.
+  intros rx X q pfuel text pats rxo t fl cfg supplied budget regexes find fuel ms g0 e E cause_text node_kind node_pos other_msg w tsg_path tsg src_path src.
+  exact (@lazy_error_rendering_cites_disp_loaded rx X q pfuel text pats t fl cfg supplied budget regexes find (stdlib_call rxo t) fuel ms g0 e E cause_text node_kind node_pos other_msg w tsg_path tsg src_path src (stdlib_call_errors_base rxo t)).
+Qed.
+
